@@ -123,6 +123,13 @@ def gen_cases(rng, tier, info):
         cmds += ["(has_stream %s)" % X.enc_str(p), "(read_stream %s)" % X.enc_str(p), "(remove_stream %s)" % X.enc_str(p)]
     cmds += obs_cmds() + ["(rows)", "(reopen into_inner)", "(rows)", "(sum_get)"] + obs_cmds()
     cases.append(Case("protected", cmds, ("protected",)))
+    # streams whose NAME is the spelling of a protected entry: accepted names (they are packed, so they are distinct entries);
+    # they must behave like any other stream -- listed, readable, removable -- and leave the real entries alone
+    cmds = ["(create 0)", "(sum_set author %s)" % X.enc_str("Ann"), "(flush)"]
+    for i, pn in enumerate(PROTECTED[:9]):
+        cmds += [w(pn, data_for(i, 4 + i)), "(has_stream %s)" % X.enc_str(pn), "(read_stream %s)" % X.enc_str(pn)] + obs_cmds()
+    cmds += ["(reopen into_inner)"] + obs_cmds() + ["(sum_get)", "(rows)", "(raw)", "(remove_stream %s)" % X.enc_str(PROTECTED[2])] + obs_cmds()
+    cases.append(Case("protected-spellings", cmds, ("protected",)))
     # signatures: added with the cfb crate only (the library has no API to add one)
     for mode in ("flush", "into_inner", "drop"):
         cmds = ["(create 0)", "(create_table %s (%s))" % (X.enc_str("T1"), G.enc_col(mk("K", "i16", pk=True))),
